@@ -672,11 +672,13 @@ _SORT_CTX_RE = re.compile(r'(order_by|group_by|sort_by)\s*=\s*[\(\s"\'\-,\w]*$')
 
 
 def slot_report(parts, old_names, new_names, frozen, text):
-  """Walks `text` along the template. -> (kind, context): kind 'ok' | 'not-rewritten' (a live slot still shows
-  the old id) | 'lookalike-rewritten' (a frozen slot shows the new id) | 'other'; context = 'sort_by-string' etc.
-  when the first offending slot sits inside an order_by/group_by/sort_by string literal."""
+  """Walks `text` along the template. -> (kind, context): kind 'ok' | 'lookalike-rewritten' (some frozen slot shows
+  the new id) | 'not-rewritten' (some live slot still shows the old id) | 'other'; context = 'sort_by-string' etc.
+  when the first offending live slot sits inside an order_by/group_by/sort_by string literal. A rewritten
+  look-alike takes precedence (it usually also derails the inference for the live mentions around it)."""
   pos = 0
   consumed = ''
+  problems = []
   for i, p in enumerate(parts):
     if not isinstance(p, tuple):
       if not text.startswith(p, pos):
@@ -693,9 +695,17 @@ def slot_report(parts, old_names, new_names, frozen, text):
     if alt != exp and text.startswith(alt + nxt, pos) and (nxt or len(text) == pos + len(alt)):
       m = _SORT_CTX_RE.search(consumed)
       ctx = (m.group(1) + '-string') if m and consumed.rstrip('-')[-1:] in ('"', "'") else None
-      return ('not-rewritten' if p[0] else 'lookalike-rewritten'), ctx
+      problems.append(('not-rewritten' if p[0] else 'lookalike-rewritten', ctx))
+      pos += len(alt); consumed += alt
+      continue
     return 'other', None
-  return ('ok' if pos == len(text) else 'other'), None
+  if pos != len(text):
+    return 'other', None
+  for kind in ('lookalike-rewritten', 'not-rewritten'):
+    for k, ctx in problems:
+      if k == kind:
+        return k, ctx
+  return 'ok', None
 
 
 def current_names(stt, obs):
